@@ -202,6 +202,7 @@ type progGen struct {
 	addr []common.Address
 	pre  []uint64 // precompile numbers usable
 	n    int      // label counter for draws
+	cur  int      // index of the top-level contract being generated (-1: unknown)
 	// Sites: journal sites per generated contract (cfg.Sites)
 	Sites map[common.Address][]JSite
 }
@@ -212,7 +213,7 @@ var structuralOps = map[byte]bool{JUMP: true, JUMPI: true, CALL: true, CALLCODE:
 	CREATE: true, CREATE2: true, RETURN: true, REVERT: true, STOP: true, SELFDESTRUCT: true, INVALID: true, JUMPDEST: true}
 
 func newProgGen(t *rapid.T, cfg ProgCfg) *progGen {
-	g := &progGen{t: t, cfg: cfg, tab: OpTableFor(cfg.Fork, cfg.Extra)}
+	g := &progGen{t: t, cfg: cfg, tab: OpTableFor(cfg.Fork, cfg.Extra), cur: -1}
 	for i := 0; i < 256; i++ {
 		op := byte(i)
 		if !g.tab[i].Defined || structuralOps[op] {
@@ -448,6 +449,8 @@ type codeGen struct {
 	datas []dataSeg
 	depth int
 	sites []JSite
+	// creations emitted so far by this code (CREATE address prediction)
+	ncreates int
 }
 
 // JSite is a journal instruction emitted as [JOP, JUMPDEST x (k-1)]: k bytes that
@@ -658,8 +661,10 @@ func (c *codeGen) createSnippet() {
 		v = genWord(t, "createvw")
 	}
 	use2 := idx >= 5 && chance(t, 50, "create2")
+	salt := uint64(0)
 	if use2 {
-		c.a.Push(uint64(rapid.IntRange(0, 2).Draw(t, "salt")))
+		salt = uint64(rapid.IntRange(0, 2).Draw(t, "salt"))
+		c.a.Push(salt)
 	}
 	c.a.Push(ln).Push(dst).Push(v)
 	if use2 {
@@ -674,6 +679,43 @@ func (c *codeGen) createSnippet() {
 		c.a.Push(0).Push(0).Push(0).Push(0).Push(0).Op(DUP1+5).Push(uint64(rapid.IntRange(0, 100000).Draw(t, "ccgas"))).Op(CALL, POP, POP)
 	}
 	c.disposeResults(1)
+	c.ncreates++
+	if !g.cfg.Hermetic && chance(t, 35, "touchcreated") {
+		// Touch the address the creation was for, whether it succeeded or not (warm /
+		// cold accounting, existence, code hash of a failed or collided creation).
+		touched := false
+		if use2 && ln == len(init) {
+			// keccak256(0xff ++ ADDRESS ++ salt ++ keccak256(init code)) computed in place
+			const s = 0x600
+			c.a.Push(ln).Push(dst).Op(KECCAK256)
+			c.a.Op(ADDRESS).Push(96).Op(SHL).Push(s + 1).Op(MSTORE)
+			c.a.Push(salt).Push(s + 21).Op(MSTORE)
+			c.a.Push(s + 53).Op(MSTORE)
+			c.a.Push(0xff).Push(s).Op(MSTORE8)
+			c.a.Push(85).Push(s).Op(KECCAK256)
+			touched = true
+		} else if !use2 && c.depth == 0 && g.cur >= 0 {
+			// nonce of the generated contract = 1 + creations it made before (exact when
+			// the code before ran once, in its own context)
+			a := crypto.CreateAddress(ContractAddrs[g.cur], uint64(c.ncreates))
+			c.a.Push(a[:])
+			touched = true
+		}
+		if touched {
+			c.h++
+			ops := []byte{BALANCE, EXTCODESIZE, CALL}
+			if g.tab[EXTCODEHASH].Defined {
+				ops = append(ops, EXTCODEHASH)
+			}
+			switch op := ops[uniform(t, 0, len(ops)-1, "touchop")]; op {
+			case CALL:
+				c.a.Push(0).Push(0).Push(0).Push(0).Push(0).Op(DUP1+5).Push(uint64(pickInt(t, "touchgas", 0, 2600, 30000))).Op(CALL, SWAP1, POP)
+			default:
+				c.a.Op(op)
+			}
+			c.disposeResults(1)
+		}
+	}
 }
 
 func (c *codeGen) terminator() {
@@ -960,6 +1002,7 @@ func GenProgScenarioSites(t *rapid.T, cfg ProgCfg) (*Scenario, map[common.Addres
 	g := newProgGen(t, cfg)
 	sc := &Scenario{Fork: cfg.Fork, ExtraEips: cfg.Extra}
 	for i := 0; i < cfg.Contracts; i++ {
+		g.cur = i
 		code, sites := g.genCodeSites(0, rapid.IntRange(1, cfg.MaxSnips).Draw(t, "nsnips"))
 		if g.Sites == nil {
 			g.Sites = map[common.Address][]JSite{}
